@@ -2240,3 +2240,119 @@ for _n in ('insert', 'get', 'get_mut', 'contains_key', 'remove', 'len', 'is_empt
     if 'HashMap::' + _n in TABLE: TABLE['BTreeMap::' + _n] = TABLE['HashMap::' + _n]
 for _n in ('insert', 'contains', 'remove', 'len', 'is_empty', 'iter'):
     if 'HashSet::' + _n in TABLE: TABLE['BTreeSet::' + _n] = TABLE['HashSet::' + _n]
+
+
+# ====================================================================== more integer / range models
+@_int_unary('checked_next_multiple_of')
+def _checked_next_multiple_of(M, a, info):
+    w, s = _int_ty(info); x, y = _opt(a[0]), _opt(a[1])
+    if M.I.branch((y == 0) if not is_sym(y) else (bv(y, w) == 0)): return NONE()
+    rem = M.I.binop('Rem', x, y, (w, s))
+    if M.I.branch((rem == 0) if not is_sym(rem) else (rem == 0)): return SOME(x)
+    d = M.I.binop('Sub', y, rem, (w, s))
+    r = M.I.binop('AddWithOverflow', x, d, (w, s))
+    if M.I.branch(r.fields[1]): return NONE()
+    return SOME(r.fields[0])
+
+
+@_int_unary('next_power_of_two')
+def _next_power_of_two(M, a, info):
+    x = _opt(a[0])
+    if is_sym(x):
+        x = M.I.concretize(x, 'next_power_of_two argument')
+    p = 1
+    while p < x: p <<= 1
+    if p > MASK[64]: raise Panic('attempt to add with overflow', 'next_power_of_two')
+    return p
+
+
+@_int_unary('clamp')
+def _clamp(M, a, info):
+    w, s = _int_ty(info); x, lo, hi = _opt(a[0]), _opt(a[1]), _opt(a[2])
+    if not any(is_sym(v) for v in (x, lo, hi)):
+        if lo > hi: raise Panic('assertion failed: min <= max', 'clamp')
+        return min(max(x, lo), hi)
+    zx, zl, zh = bv(x, w), bv(lo, w), bv(hi, w)
+    lt = (lambda p, q: p < q) if s else z3.ULT
+    if M.I.branch(lt(zh, zl)): raise Panic('assertion failed: min <= max', 'clamp')
+    return z3.If(lt(zx, zl), zl, z3.If(lt(zh, zx), zh, zx))
+
+
+@_int_unary('leading_zeros')
+def _leading_zeros(M, a, info):
+    w, s = _int_ty(info); x = _opt(a[0])
+    if not is_sym(x): return w - (x & MASK[w]).bit_length()
+    r = z3.BitVecVal(w, 32)
+    for i in range(w):
+        r = z3.If(z3.Extract(i, i, x) == 1, z3.BitVecVal(w - 1 - i, 32), r)
+    return r
+
+
+@_int_unary('ilog2')
+def _ilog2(M, a, info):
+    w, s = _int_ty(info); x = _opt(a[0])
+    if M.I.branch((x == 0) if not is_sym(x) else (bv(x, w) == 0)): raise Panic('argument of integer logarithm must be positive', 'ilog2')
+    if not is_sym(x): return (x & MASK[w]).bit_length() - 1
+    r = z3.BitVecVal(0, 32)
+    for i in range(w):
+        r = z3.If(z3.Extract(i, i, x) == 1, z3.BitVecVal(i, 32), r)
+    return r
+
+
+@_int_unary('pow')
+def _int_pow(M, a, info):
+    w, s = _int_ty(info); x, e = _opt(a[0]), _opt(a[1])
+    e = M.I.concretize(e, 'exponent')
+    acc = 1
+    for _ in range(e):
+        r = M.I.binop('MulWithOverflow', acc, x, (w, s))
+        if M.I.branch(r.fields[1]): raise Panic('attempt to multiply with overflow', 'pow')
+        acc = r.fields[0]
+    return acc
+
+
+@_int_unary('unsigned_abs')
+def _unsigned_abs(M, a, info):
+    w, s = _int_ty(info); x = _opt(a[0])
+    if not is_sym(x): return abs(x)
+    return z3.If(x < 0, -x, x)
+
+
+@_int_unary('rem_euclid')
+def _rem_euclid(M, a, info):
+    w, s = _int_ty(info); x, y = _opt(a[0]), _opt(a[1])
+    if M.I.branch((y == 0) if not is_sym(y) else (bv(y, w) == 0)): raise Panic('attempt to calculate the remainder with a divisor of zero', 'rem_euclid')
+    if not s: return M.I.binop('Rem', x, y, (w, s))
+    if not is_sym(x) and not is_sym(y): return x % abs(y)
+    zx, zy = bv(x, w), bv(y, w)
+    r = z3.SRem(zx, zy)
+    return z3.If(r < 0, z3.If(zy < 0, r - zy, r + zy), r)
+
+
+@model('Range::contains', 'RangeInclusive::contains', 'RangeTo::contains', 'RangeFrom::contains')
+def _range_contains(M, a, info):
+    r = _opt(a[0]); v = _opt(a[1])
+    nm = segs(r.name)[-1]
+    def lt(p, q): return (p < q) if not (is_sym(p) or is_sym(q)) else z3.ULT(bv(p, 64), bv(q, 64))
+    def le(p, q): return (p <= q) if not (is_sym(p) or is_sym(q)) else z3.ULE(bv(p, 64), bv(q, 64))
+    if nm == 'Range': return and_(le(r.fields[0], v), lt(v, r.fields[1]))
+    if nm == 'RangeTo': return lt(v, r.fields[0])
+    if nm == 'RangeFrom': return le(r.fields[0], v)
+    raise Unsupported('contains on ' + r.name)
+
+
+@model('Range::is_empty')
+def _range_is_empty(M, a, info):
+    r = _opt(a[0]); lo, hi = r.fields
+    return not_((lo < hi) if not (is_sym(lo) or is_sym(hi)) else z3.ULT(bv(lo, 64), bv(hi, 64)))
+
+
+@model('Range::len', 'ExactSizeIterator::len')
+def _range_len(M, a, info):
+    r = _opt(a[0])
+    if type(r) is Adt and segs(r.name)[-1] == 'Range':
+        lo, hi = r.fields
+        if not (is_sym(lo) or is_sym(hi)): return max(0, hi - lo)
+        zl, zh = bv(lo, 64), bv(hi, 64)
+        return z3.If(z3.ULT(zl, zh), zh - zl, z3.BitVecVal(0, 64))
+    return M.I.len_of(r)
